@@ -62,7 +62,13 @@ class Proof:
         self.inputs = dict(getattr(cls, 'inputs', {}))
         self.requires = _fn(cls, 'requires')
         self.run = _fn(cls, 'run')
-        self.ensures = [(k[len('ensures_'):], _unwrap(v)) for k, v in cls.__dict__.items() if k.startswith('ensures_')]
+        self.ensures = []
+        seen = set()
+        for klass in cls.__mro__:
+            for k, v in klass.__dict__.items():
+                if k.startswith('ensures_') and k not in seen:
+                    seen.add(k)
+                    self.ensures.append((k[len('ensures_'):], _unwrap(v)))
         self.raises = dict(getattr(cls, 'raises', {}))
         self.samples = _fn(cls, 'samples')
         self.modular = list(getattr(cls, 'modular', []))
@@ -82,8 +88,11 @@ def _unwrap(f):
 
 
 def _fn(cls, name):
-    f = cls.__dict__.get(name)
-    return _unwrap(f) if f is not None else None
+    for klass in cls.__mro__:
+        if name in klass.__dict__:
+            f = klass.__dict__[name]
+            return _unwrap(f) if f is not None else None
+    return None
 
 
 def proof(prop, name):
